@@ -268,8 +268,8 @@ def Voter.newVoteAt (v : Voter) (c : Ctx) (k : VKind) (vt : VT) (a : Addr) (h : 
   match kindChamber? k, getW v.ws c with
   | some ch, some w =>
     if vt = .other then (v, false, 0) else
-    let (s, add, cnt) := (w.sta ch vt).newVote a h votes vrf
-    ({ v with ws := setW v.ws c (w.set ch vt s) }, add, cnt)
+    let r := (w.sta ch vt).newVote a h votes vrf
+    ({ v with ws := setW v.ws c (w.set ch vt r.1) }, r.2.1, r.2.2)
   | _, _ => (v, false, 0)
 
 inductive Call
@@ -286,14 +286,13 @@ def exec : Nat → Voter → Call → Voter × List Out × Bool
   | 0, v, _ => (v, [.bug 0], false)
   | _ + 1, v, .commit h _ =>
     if !v.env.hasBlock h then (v, [], true) else
-    let c := v.ctx
     -- the packed votes must still reach the quorums that were latched in voteOver
-    if !(v.over h true .precommit && overThreshold (countOf v.ws c true .precommit h) (v.overT h .precommit) true) then (v, [], true)
-    else if v.shouldCert && !(v.over h true .cert && overThreshold (countOf v.ws c true .cert h) (v.overT h .cert) false) then (v, [], true)
+    if !(v.over h true .precommit && overThreshold (countOf v.ws v.ctx true .precommit h) (v.overT h .precommit) true) then (v, [], true)
+    else if v.shouldCert && !(v.over h true .cert && overThreshold (countOf v.ws v.ctx true .cert h) (v.overT h .cert) false) then (v, [], true)
     else
-    let certs := if v.shouldCert then votesOf v.ws c true .cert h else []
     ({ v with committed := true },
-      [.commit c h v.shouldCert (votesOf v.ws c true .precommit h) (votesOf v.ws c false .precommit h) certs], true)
+      [.commit v.ctx h v.shouldCert (votesOf v.ws v.ctx true .precommit h) (votesOf v.ws v.ctx false .precommit h)
+        (if v.shouldCert then votesOf v.ws v.ctx true .cert h else [])], true)
   | fuel + 1, v, .mark h p =>
     match v.nextVoted with
     | some (nh, _) =>
@@ -304,8 +303,8 @@ def exec : Nat → Voter → Call → Voter × List Out × Bool
     else if v.step < 4 then
       (if v.nextMarked.isNone ∧ h ≠ 0 then { v with nextMarked := some (h, p) } else v, [], true)
     else
-      let (v2, o2, ok) := exec fuel v (.vote .next h p)
-      (if !ok then { v2 with nextVoted := some (h, p) } else v2, o2, true)
+      let r := exec fuel v (.vote .next h p)
+      (if !r.2.2 then { r.1 with nextVoted := some (h, p) } else r.1, r.2.1, true)
   | fuel + 1, v, .vote vt h p =>
     match v.env.sel vt with
     | none => (v, [], false)
@@ -314,53 +313,51 @@ def exec : Nat → Voter → Call → Voter × List Out × Bool
       else if vt = .cert ∧ v.env.certErr then (v, [], false)
       else if v.db.alreadyVoted vt v.round v.index then (v, [], false)
       else
-        let v1 := { v with db := v.db.record vt v.round v.index }
-        let (v2, _, cnt) := v1.newVoteAt v1.ctx sv.kind vt self h sv.votes true
-        let (v3, outs, _) := exec fuel v2 (.judge vt cnt sv.T h p sv.kind)
-        (v3, .signed vt v.ctx h p sv.votes :: outs, true)
+        let nv := ({ v with db := v.db.record vt v.round v.index } : Voter).newVoteAt v.ctx sv.kind vt self h sv.votes true
+        let r := exec fuel nv.1 (.judge vt nv.2.2 sv.T h p sv.kind)
+        (r.1, .signed vt v.ctx h p sv.votes :: r.2.1, true)
   | fuel + 1, v, .judge vt count T h p k =>
     if !overThreshold count T (vt != .cert) || (v.committed && vt != .precommit) then (v, [], true)
     else if v.committed && vt == .precommit then ({ v with updateEv := some (v.ctx, h) }, [], true)
     else
-      let ghost := match kindChamber? k with
-        | some ch => [Out.over v.ctx vt ch h count T (votesOf v.ws v.ctx ch vt h)]
-        | none => []
-      let v1 : Voter := match kindChamber? k with
-        | some ch =>
+      match kindChamber? k with
+      | none => (v, [], true)
+      | some ch =>
+        let ghost := [Out.over v.ctx vt ch h count T (votesOf v.ws v.ctx ch vt h)]
+        let v1 : Voter :=
           { v with over := fun h' c' t' => if h' = h ∧ c' = ch ∧ t' = vt then true else v.over h' c' t'
                    overT := fun h' t' => if h' = h ∧ ch = true ∧ t' = vt then T else v.overT h' t' }
-        | none => v
-      if k ≠ .chamber then (v1, ghost, true) else
-      match vt with
-      | .prevote =>
-        if v1.precommitted then (v1, ghost, true) else
-        let (v2, o2, ok) := exec fuel v1 (.vote .precommit h p)
-        let v3 := if ok then { v2 with precommitted := true } else v2
-        let (v4, o4, _) := exec fuel v3 (.mark h p)
-        (v4, ghost ++ o2 ++ o4, true)
-      | .precommit =>
-        if !v1.shouldCert then
-          let (v2, o2, _) := exec fuel v1 (.commit h p)
-          let (v3, o3, _) := exec fuel v2 (.mark h p)
-          (v3, ghost ++ o2 ++ o3, true)
-        else if !v1.certificated then
-          let (v2, o2, ok) := exec fuel v1 (.vote .cert h p)
-          (if ok then { v2 with certificated := true } else v2, ghost ++ o2, true)
-        else if v1.over h true .cert then
-          let (v2, o2, _) := exec fuel v1 (.commit h p)
-          let (v3, o3, _) := exec fuel v2 (.mark h p)
-          (v3, ghost ++ o2 ++ o3, true)
-        else (v1, ghost, true)
-      | .cert =>
-        if v1.over h true .precommit then
-          let (v2, o2, _) := exec fuel v1 (.commit h p)
-          let (v3, o3, _) := exec fuel v2 (.mark h p)
-          (v3, ghost ++ o2 ++ o3, true)
-        else (v1, ghost, true)
-      | .next =>
-        if v1.sentChange then (v1, ghost, true)
-        else ({ v1 with sentChange := true }, ghost ++ [.rice v1.ctx h p], true)
-      | .other => (v1, ghost, true)
+        if ch = false then (v1, ghost, true) else
+        match vt with
+        | .prevote =>
+          if v1.precommitted then (v1, ghost, true) else
+          let r2 := exec fuel v1 (.vote .precommit h p)
+          let v3 : Voter := if r2.2.2 then { r2.1 with precommitted := true } else r2.1
+          let r4 := exec fuel v3 (.mark h p)
+          (r4.1, ghost ++ r2.2.1 ++ r4.2.1, true)
+        | .precommit =>
+          if !v1.shouldCert then
+            let r2 := exec fuel v1 (.commit h p)
+            let r3 := exec fuel r2.1 (.mark h p)
+            (r3.1, ghost ++ r2.2.1 ++ r3.2.1, true)
+          else if !v1.certificated then
+            let r2 := exec fuel v1 (.vote .cert h p)
+            (if r2.2.2 then { r2.1 with certificated := true } else r2.1, ghost ++ r2.2.1, true)
+          else if v1.over h true .cert then
+            let r2 := exec fuel v1 (.commit h p)
+            let r3 := exec fuel r2.1 (.mark h p)
+            (r3.1, ghost ++ r2.2.1 ++ r3.2.1, true)
+          else (v1, ghost, true)
+        | .cert =>
+          if v1.over h true .precommit then
+            let r2 := exec fuel v1 (.commit h p)
+            let r3 := exec fuel r2.1 (.mark h p)
+            (r3.1, ghost ++ r2.2.1 ++ r3.2.1, true)
+          else (v1, ghost, true)
+        | .next =>
+          if v1.sentChange then (v1, ghost, true)
+          else ({ v1 with sentChange := true }, ghost ++ [.rice v1.ctx h p], true)
+        | .other => (v1, ghost, true)
 
 def FUEL : Nat := 16
 
